@@ -5,6 +5,12 @@
 // part.  Everything random comes from one PRNG seeded by VERIF_SEED.  One JSON object per line on
 // stdout: first the shape ({"kind":"shape",..}), then its cases ({"kind":"case","prop":"C03",..}).
 // Panics of the code under test are recovered per request and recorded as an enum.
+//
+// Type identity is reported as a canonical name (canon): reflect's String() plus a suffix for every
+// further type that prints the same.  The generated "homonym" shapes are declared inside their init
+// function behind local types that shadow package-level ones (`type MyInt string` vs the package-level
+// `type MyInt int64`: same String(), Name() and PkgPath(), distinct types); they announce those local
+// types with declareType, so `main.MyInt` is the package-level type and `main.MyInt#K8` the one of shape K8.
 package main
 
 import (
